@@ -215,8 +215,20 @@ def other_cases() -> list[tuple[str, str]]:
     # apply: f on both sides
     fs = [("dot-with-b", lambda v: VectorDot(v, b)), ("norm", VectorNorm), ("times-k", lambda v: k * v),
         ("cross-with-c", lambda v: VectorCross(v, c))]
-    inputs = [("eq", sp.Eq(a + b, k * c, evaluate=False)), ("expr", a - 2 * b)]
-    for (fn_name, fn), (in_name, inp) in itertools.product(fs, inputs):
+    inputs = [("eq", sp.Eq(a + b, k * c, evaluate=False)), ("expr", a - 2 * b), ("symbol", a),
+        ("cross", VectorCross(a, b)), ("eq-cross", sp.Eq(VectorCross(a, b), c, evaluate=False)),
+        ("scaled-cross", k * VectorCross(a, b) - c)]
+    # scalar-valued equations and bare scalar expressions (an expression e stands for e = 0),
+    # every kind of scalar node at the top
+    sfs = [("times-k", lambda v: k * v), ("square", lambda v: v**2), ("plus-one", lambda v: v + 1),
+        ("times-a", lambda v: v * a)]
+    from symplyphysics.core.experimental.vectors import VectorMixedProduct
+    sinputs = [("dot", VectorDot(a, b)), ("norm", VectorNorm(a)), ("mixed", VectorMixedProduct(a, b,
+        c)), ("k*dot", k * VectorDot(a, b)), ("dot+1", VectorDot(a, b) + 1), ("k", k), ("zero",
+        sp.S.Zero), ("eq-dot", sp.Eq(VectorDot(a, b), k, evaluate=False)), ("eq-norm", sp.Eq(
+        VectorNorm(a), VectorNorm(b), evaluate=False)), ("dot-of-sums", VectorDot(a + b, a - c))]
+    pairs = list(itertools.product(fs, inputs)) + list(itertools.product(sfs, sinputs))
+    for (fn_name, fn), (in_name, inp) in pairs:
         r = apply(inp, fn)
         lhs, rhs = (inp.lhs, inp.rhs) if isinstance(inp, sp.Equality) else (inp, sp.S.Zero)
         try:
@@ -270,7 +282,8 @@ def main(run: Run) -> int:
         rule="all linear combinations of 1..2 terms over 8 coefficients x 7 vector terms and of 3 "
         "terms over a reduced alphabet, x unknown in {a, b, c, d (absent)} x {expression, equation "
         "split over both sides} x {reduce_factor on, off}; plus non-vector inputs, vectors that are "
-        "not terms, 9 scalar equations, 8 apply cases",
+        "not terms, 9 scalar equations, 64 apply cases (4 vector functions x 6 vector inputs, 4 scalar "
+        "functions x 10 scalar inputs: equations and bare expressions with every node kind on top)",
         exhaustive=True,
         assumptions=["equivalence decided by component expansion in R^3 (exact normal form)",
             "the admissible divisor is the coefficient of any one term in the unknown, or their sum "
